@@ -22,6 +22,7 @@ case('F12 at connection level, 1-byte reads, write side pending every other call
 case('bad chunk syntax was handled as a lost peer: no 4xx (fixed a38372c)','conn','w',CH+b"3\r\nabc\r\nzz\r\n"+NEXT,'e=0 cls=ch-badsize')
 case('same with the write side pending: the bytes after the reject must not be decoded on the next poll','conn','w',CH+b"3\r\nabc\r\nzz\r\n"+NEXT,'e=0 wp=1 cls=ch-badsize')
 case('chunk-size overflow at connection level','conn','b1',CH+b"10000000000000000\r\n"+NEXT,'e=0 cls=ch-overflow')
+case('last-chunk size line CR not followed by LF','codec','a2',CH+b"0\rX\r\n"+NEXT,'cls=ch-last-nolf')
 case('trailers are not supported: rejected (documented over-strictness)','conn','w',CH+b"0\r\nX-T: v\r\n\r\n"+NEXT,'e=0 cls=ch-trailer')
 # header name longer than HeaderName allows: panic (fixed 98776f7)
 case('header name of 70000 bytes panicked the decoder (fixed 98776f7)','codec','w',b"GET / HTTP/1.1\r\n"+b"a"*70000+b": x\r\n\r\n"+NEXT,'cls=bigname')
